@@ -7,8 +7,8 @@ use crate::error::{DecodeError, EncodeError};
 use crate::types::{FixedHeader, MAX_PACKET_SIZE, packet_type};
 use crate::utils::{decode_variable_length, truncate_pages};
 
-use super::{Decoded, Encoded};
 use super::encode::{EncodeLtd, var_int_len_u32};
+use super::{Decoded, Encoded};
 use super::{Packet, decode::decode_packet, packet::Publish};
 
 pub struct Codec {
